@@ -52,7 +52,17 @@ def rules(rep, m):
         a2 = [xcx.canon(x) for x in kids(c)[1:]]
         tgt = "&%s->queue->heap[cmi_hash_find_index(&%s->queue, %s)]" % (pos.params[0]["name"], pos.params[0]["name"],
                                                                            pos.params[1]["name"])
-        if callee.lstrip("*").endswith("heap_compare") and len(a2) == 2 and "heap[" in a2[0] and \
+        # the first operand is the entry the enclosing heap walk is at (subscript or walking pointer), the second the
+        # target located through the handle
+        walker = "heap[" in a2[0]
+        if not walker:
+            from . import siftrules
+            for f_, lp_, H_ in siftrules.heap_walks(m):
+                if f_ is pos and any(y is c for y in walk(lp_)) and lp_["kind"] == "ForStmt":
+                    lvs = [d["name"] for d in walk(kids(lp_)[0]) if d["kind"] == "VarDecl"]
+                    if render(strip(kids(c)[1], casts=True)) in lvs:
+                        walker = True
+        if callee.lstrip("*(").rstrip(")").endswith("heap_compare") and len(a2) == 2 and walker and \
                 (a2[1].replace("(", "").replace(")", "").startswith(("&" + pos.params[0]["name"]))
                  or "find_index" in a2[1]) and inv.in_loop(pos, c):
             good = True
@@ -110,7 +120,7 @@ def rules(rep, m):
                     r3.fail()
                     return
                 i_inc = incs[0][0]
-                if not _assumed(tr, r"\(%s->length < %s->capacity\)" % (O, O), True, i_inc):
+                if not common.rel_assumed(tr, O + "->length", "<", O + "->capacity", i_inc):
                     rep.finding(r2, root, "insert-without-capacity-test", "length is raised on a path where 'length < "
                                 "capacity' was not established in the same atomic region", where=incs[0][1][4])
                     r2.fail()
@@ -220,7 +230,7 @@ def rules(rep, m):
                 if len(ins) != 1:
                     rep.finding(r2, root, "put:count", "successful put enqueues %d times" % len(ins), where=where)
                     r2.fail()
-                elif not _assumed(tr, r"\(%s->queue\.heap_count < %s->capacity\)" % (O, O), True, ins[0][0]):
+                elif not common.rel_assumed(tr, O + "->queue.heap_count", "<", O + "->capacity", ins[0][0]):
                     rep.finding(r2, root, "insert-without-capacity-test", "the object is enqueued on a path where "
                                 "'length < capacity' was not established in the same atomic region", where=ins[0][1][3])
                     r2.fail()
